@@ -137,6 +137,51 @@ Definition tvs_replace (_ : option str) (v : value) : list value :=
   end.
 End ReplaceSpec.
 
+
+(* ---------- hashes_fields: `Hashes: [ALGO=hash, ...]` becomes one entry per hash field, in the order
+   in which the fields first occur, each with all the hashes of that field; the linking of the values
+   (all) is kept inside and between the entries, a negated entry negates the whole group ---------- *)
+Fixpoint nodup_str (l : list str) : list str :=
+  match l with [] => [] | x :: r => x :: filter (fun y => negb (str_eqb y x)) (nodup_str r) end.
+Definition vals_of (k : str) (pairs : list (str * str)) : list str :=
+  map snd (filter (fun p => str_eqb (fst p) k) pairs).
+Definition spec_group (pairs : list (str * str)) : list (str * list str) :=
+  map (fun k => (k, vals_of k pairs)) (nodup_str (map fst pairs)).
+Definition touch_hashes (H : hcfg) (i : ditem) : bool :=
+  match i_field i with Some f => mem_str f (h_fields H) && forallb is_strv (i_vals i) | None => false end.
+Definition rw_hashes (H : hcfg) (i : ditem) : option doc :=
+  if touch_hashes H i then
+    let es := map (fun g => Entry (hash_entry i false g))
+                  (filter (fun g => nonempty (fst g)) (spec_group (hash_pairs H (i_vals i)))) in
+    Some (wrap_neg (i_neg i) (if i_all i then All es else Any es))
+  else Some (Entry i).
+
+(* ---------- extract_fields: every value that the regular expression matches becomes the conjunction of
+   its named groups (typed), the values stay linked as before (all), unmatched values are dropped or kept;
+   a negated entry negates the whole ---------- *)
+Definition extract_docs (X : xcfg) (i : ditem) : list doc :=
+  flat_map (fun v => match v with
+                     | V (AStr _ s) =>
+                         match extract_lookup X s with
+                         | Some groups => match extract_group_items X groups with
+                                          | [] => []
+                                          | items => [All (map Entry items)]
+                                          end
+                         | None => if x_preserve X then [Entry (mkI (i_field i) [v] false false [])] else []
+                         end
+                     | _ => []
+                     end) (i_vals i).
+Definition touch_extract (X : xcfg) (i : ditem) : bool :=
+  forallb is_strv (i_vals i) && match extract_docs X i with [] => false | _ => true end.
+Definition rw_extract (X : xcfg) (i : ditem) : option doc :=
+  if forallb is_strv (i_vals i) then
+    match extract_docs X i with
+    | [] => Some (Entry i)
+    | [x] => Some (wrap_neg (i_neg i) x)
+    | l => Some (wrap_neg (i_neg i) (if i_all i then All l else Any l))
+    end
+  else Some (Entry i).
+
 Definition scoped (im : ditem -> bool) (r : ditem -> option doc) (i : ditem) : option doc :=
   if im i then r i else Some (Entry i).
 
@@ -171,6 +216,11 @@ Definition rw_tspec (c : conds) (t : tspec) : ditem -> option doc :=
     | TConvertStr => rv tv_convert_str
     | TWildPh k => rv (tv_placeholder k repl_wild)
     | TValuePh k vars => rv (tv_placeholder k (repl_vars vars))
+    | TRegex m => rv (tv_regex m)
+    | TConvertNum tbl => rv (tv_convert_num tbl)
+    | TQueryPh k e m => rv (tv_queryph k e m)
+    | THashes H => smarked (c_id c) (touch_hashes H) (rw_hashes H)
+    | TExtract X => smarked (c_id c) (touch_extract X) (rw_extract X)
     | TNoop => fun i => Some (Entry i)
     end.
 
